@@ -870,17 +870,28 @@ func c07Run(s c07Scn) *c07Result {
 			}
 		}
 	}
+	// barrier: wait until every callback owed so far has run; gives up (and reports) when NO callback of any
+	// subscription has completed for c07Stall — a slow subscriber is making progress, a wedged one is not.
+	// After a failed barrier the scenario stops: what follows would only wait again.
+	barrierFailed := false
 	barrier := func() {
-		deadline := time.Now().Add(c07Watchdog)
+		last, lastAt := atomic.LoadInt64(&cbTotal), time.Now()
 		for k, st := range subs {
 			if !st.subscribed {
 				continue
 			}
-			for atomic.LoadInt64(&st.cb) < st.owed && time.Now().Before(deadline) {
+			for atomic.LoadInt64(&st.cb) < st.owed {
 				time.Sleep(100 * time.Microsecond)
+				if n := atomic.LoadInt64(&cbTotal); n != last {
+					last, lastAt = n, time.Now()
+				} else if time.Since(lastAt) > c07Stall {
+					break
+				}
 			}
 			if got := atomic.LoadInt64(&st.cb); got < st.owed {
 				fail("a subscribed transport did not hand over every message: %d of %d callbacks ran within the watchdog (subscription %d)", got, st.owed, k)
+				barrierFailed = true
+				return
 			}
 			for _, t := range st.valid {
 				st.must[t] = true
@@ -1018,7 +1029,7 @@ func c07Run(s c07Scn) *c07Result {
 				wedged = true
 			}
 		}
-		if wedged || res.known != "" {
+		if wedged || barrierFailed || res.known != "" {
 			break // the subscriber transport is wedged; nothing after this is meaningful
 		}
 	}
@@ -1027,7 +1038,7 @@ func c07Run(s c07Scn) *c07Result {
 	if err := conns.fence(); err != nil {
 		fail("harness: fence: %v", err)
 	}
-	if !wedged && res.known == "" {
+	if !wedged && !barrierFailed && res.known == "" {
 		barrier()
 	}
 	time.Sleep(c07Grace + time.Duration(s.delayUs)*time.Microsecond)
